@@ -542,7 +542,38 @@ func checkC05Server(p *Prog, r *Report, rSrc, rPins, rPort *Rule) {
 		if nil == f2 {
 			f2, _ = loadedField(base)
 		}
-		return f2 == lF
+		if f2 == lF {
+			return true
+		}
+		/* Or the listener itself, before (or besides) being put into
+		Server.l: what sstls.Listen returned in this call. */
+		rs := valueRoots(base, nil)
+		if al, isAl := resolveFree(base).(*ssa.Alloc); isAl {
+			/* A local variable holding it. */
+			rs = nil
+			for _, ref := range *al.Referrers() {
+				if fa, isFA := ref.(*ssa.FieldAddr); isFA {
+					for _, r2 := range *fa.Referrers() {
+						if st, isSt := r2.(*ssa.Store); isSt && st.Addr == ssa.Value(fa) {
+							rs = append(rs, Root{Kind: "other", V: st.Val}) /* a field overwritten */
+						}
+					}
+				}
+			}
+			for _, st := range storesTo(al) {
+				if st.Addr == ssa.Value(al) {
+					rs = append(rs, valueRoots(st.Val, nil)...)
+				} else {
+					rs = append(rs, Root{Kind: "other", V: st.Val})
+				}
+			}
+		}
+		for _, x := range rs {
+			if !("call" == x.Kind && nil != listen && x.V.(*ssa.Call).Common().StaticCallee() == listen) {
+				return false
+			}
+		}
+		return 0 != len(rs)
 	}
 	/* Printf-style calls whose constant format mentions the pin. */
 	known := findPrintfLike(p)
@@ -581,6 +612,8 @@ func checkC05Server(p *Prog, r *Report, rSrc, rPins, rPort *Rule) {
 			}
 			if isPinLoad(vals[nv]) {
 				rPins.OK(cc, posOf(i), "pin argument is s.l.Fingerprint")
+			} else if rs := p.deepRoots(vals[nv], isPinLoad); allAccepted(rs) {
+				rPins.OK(cc, posOf(i), "pin argument is s.l.Fingerprint, handed down through private parameters and fields")
 			} else {
 				rPins.Bad(cc, posOf(i), "the pin printed is %s, not the listener's fingerprint", rootsString(valueRoots(vals[nv], nil)))
 			}
@@ -806,4 +839,13 @@ func isStdEncoding(p *Prog, v ssa.Value) bool {
 func isNumberBase(v ssa.Value) bool {
 	k, ok := constInt(v)
 	return ok && 10 == k
+}
+
+func allAccepted(rs []Root) bool {
+	for _, x := range rs {
+		if "accepted" != x.Kind {
+			return false
+		}
+	}
+	return 0 != len(rs)
 }
